@@ -239,6 +239,22 @@ impl QuicConnection {
         })
     }
 
+    /// Report the connection closed to protocols and the manager and close the QUIC connection.
+    ///
+    /// Dropping `self.connection` does not close a QUIC connection while substreams handed out to
+    /// protocols (or pending substream futures) still exist, as they hold references to it. The
+    /// connection has to be closed explicitly, the way dropping the socket does it for TCP:
+    /// otherwise the remote is never told and keeps using a connection nobody listens on.
+    async fn close_connection(&mut self) -> crate::Result<()> {
+        let result = self
+            .protocol_set
+            .report_connection_closed(self.peer, self.endpoint.connection_id())
+            .await;
+        self.connection.close(0u32.into(), b"connection closed");
+
+        result
+    }
+
     /// Start the connection event loop without notifying protocols.
     /// This is used when protocols have already been notified during accept().
     pub(crate) async fn start(mut self) -> crate::Result<()> {
@@ -259,7 +275,7 @@ impl QuicConnection {
                                 peer = ?self.peer,
                                 "inbound substream on a connection that is closing, closing connection",
                             );
-                            return self.protocol_set.report_connection_closed(self.peer, self.endpoint.connection_id()).await;
+                            return self.close_connection().await;
                         };
                         let stream = NegotiatingSubstream::new(send_stream, receive_stream);
                         let substream_open_timeout = self.substream_open_timeout;
@@ -286,7 +302,7 @@ impl QuicConnection {
                     }
                     Err(error) => {
                         tracing::debug!(target: LOG_TARGET, peer = ?self.peer, ?error, "failed to accept substream");
-                        return self.protocol_set.report_connection_closed(self.peer, self.endpoint.connection_id()).await;
+                        return self.close_connection().await;
                     }
                 },
                 substream = self.pending_substreams.select_next_some(), if !self.pending_substreams.is_empty() => {
@@ -376,10 +392,7 @@ impl QuicConnection {
                             connection_id = ?self.endpoint.connection_id(),
                             "protocols have dropped connection"
                         );
-                        return self.protocol_set.report_connection_closed(
-                            self.peer,
-                            self.endpoint.connection_id(),
-                        ).await;
+                        return self.close_connection().await;
                     }
                     Some(ProtocolCommand::OpenSubstream {
                         protocol,
@@ -435,7 +448,7 @@ impl QuicConnection {
                             "force closing connection",
                         );
 
-                        return self.protocol_set.report_connection_closed(self.peer, self.endpoint.connection_id()).await;
+                        return self.close_connection().await;
                     }
                 }
             }
